@@ -7,7 +7,7 @@ from common import hx
 from eth_hash.auto import keccak
 
 ID = "C05"
-LEAN_IMPORTS = ["PyTrie.Props.C05", "PyTrie.Props.C05Batch", "PyTrie.Props.NonVacuity"]
+LEAN_IMPORTS = ["PyTrie.Props.C05", "PyTrie.Props.C05Batch", "PyTrie.Props.NonVacuity", "PyTrie.Props.FreeExec"]
 THEOREMS = [
     "PyTrie.Props.C05.abort_restores_world",
     "PyTrie.Props.C05.batch_ops_leave_base",
@@ -29,6 +29,14 @@ THEOREMS = [
     "PyTrie.Props.NonVacuity.c05_np_begin",
     "PyTrie.Props.NonVacuity.c05_np_inv",
     "PyTrie.Props.NonVacuity.c05_np_commit",
+    "PyTrie.Props.Free.op_is_executor_op_view",
+    "PyTrie.Props.Free.view_is_what_is_read",
+    "PyTrie.Props.Free.lockstep_begin",
+    "PyTrie.Props.Free.lockstep_end",
+    "PyTrie.Props.Free.lockstep_op_outer",
+    "PyTrie.Props.Free.lockstep_op_batch",
+    "PyTrie.Props.Free.cache_keys_unique_begin",
+    "PyTrie.Props.Free.cache_keys_unique_op",
 ]
 RULE = ("prior history, then squash_changes blocks with every exit kind: normal, an exception after n of the "
         "block's operations (every n), and - for non-pruning tries - the n-th database write of the commit failing "
